@@ -5,12 +5,117 @@ FAMILIES = ['shutdown', 'latekill']
 PER_FAMILY = (500, 10000)
 
 
-PROOF = S.pool_proof('C05', ['C05_graceful_never_drops', 'C05_graceful_delivers_everything', 'C05_submit_after_shutdown_raises', 'C05_structure', 'C05_shutting_down_manager_is_never_stuck', 'C05_manager_leaves_an_empty_table', 'C05_worker_leaves_through_the_handshake', 'C05_interpreter_exit_order', 'C05_collected_executor_is_shut_down_gracefully'],
+PROOF = S.pool_proof('C05', ['C05_graceful_never_drops', 'C05_graceful_delivers_everything', 'C05_submit_after_shutdown_raises', 'C05_structure', 'C05_shutting_down_manager_is_never_stuck', 'C05_manager_leaves_an_empty_table', 'C05_worker_leaves_through_the_handshake', 'C05_interpreter_exit_order', 'C05_collected_executor_is_shut_down_gracefully', 'C05_sentinel_loop'],
                     'the sentinel hand-shake through a full call queue (more sentinels than slots) and the GC / interpreter-exit triggers are exercised by the simulation, not modelled beyond the flags', extra_gen=['Worker'])
 
 
+def sentinel_loop_differential(ctx, n_cases):
+    """the REAL shutdown_workers() on a scripted queue (full or not at each put_nowait) and scripted workers (how many alive at each
+    test) against Model/SentinelLoop.v evaluated in Coq: sentinels posted, sleeps, normal end or queue.Full re-raised"""
+    import os, queue, random, sys, types
+    import vlib
+    if sys.path[0] != vlib.REPO:
+        sys.path.insert(0, vlib.REPO)
+    import loky.process_executor as pe
+    rng = random.Random(ctx.seed + 5)
+    K = 47
+    cases, bad = [], []
+    saved_sleep = pe.sleep
+    try:
+        for _ in range(n_cases):
+            n = rng.choice([0, 1, 2, 3, 5, 8])
+            pfull = rng.choice([0.0, 0.1, 0.5, 0.9, 0.97, 1.0])
+            palive0 = rng.choice([0.0, 0.05, 0.3])
+            alive_stream = [0 if rng.random() < palive0 else rng.randint(1, max(1, n)) for _ in range(400)]
+            put_stream = [rng.random() < pfull for _ in range(400)]          # True = queue.Full
+            ai, pi = [0], [0]
+            sleeps, released = [], [0]
+
+            class Lock:
+                def __enter__(self): return self
+                def __exit__(self, *a): return False
+
+            class P:
+                name = "p"
+                _worker_exit_lock = types.SimpleNamespace(release=lambda: released.__setitem__(0, released[0] + 1))
+
+            class Q:
+                _maxsize = 3
+                posted = 0
+                def full(self): return True
+                def put_nowait(self, obj):
+                    f = put_stream[pi[0]]; pi[0] += 1
+                    if f:
+                        raise queue.Full()
+                    Q.posted += 1
+
+            def alive():
+                v = alive_stream[ai[0]]; ai[0] += 1
+                return v
+            me = types.SimpleNamespace(processes_management_lock=Lock(), processes={i: P() for i in range(n)}, call_queue=Q(), get_n_children_alive=alive)
+            pe.sleep = lambda t: sleeps.append(t)
+            raised = False
+            try:
+                pe._ExecutorManagerThread.shutdown_workers(me)
+            except queue.Full:
+                raised = True
+            real = (Q.posted, len(sleeps), "Raised" if raised else "Done", released[0])
+            # reference walk of the model on the same two streams; builds the merged answer list for Coq
+            sent = grown = 0
+            phase, merged, a2, p2, saw0 = "Outer", [], 0, 0, False
+            while phase not in ("Done", "Raised"):
+                if phase == "Outer":
+                    if sent < n:
+                        al = alive_stream[a2]; a2 += 1
+                        merged.append((al, False))
+                        if al > 0:
+                            phase = ("Inner", n - sent)
+                        else:
+                            phase, saw0 = "Done", True
+                    else:
+                        merged.append((1, False)); phase = "Done"
+                elif phase[1] == 0:
+                    merged.append((1, False)); phase = "Outer"
+                else:
+                    f = put_stream[p2]; p2 += 1
+                    merged.append((1, f))
+                    if not f:
+                        sent += 1; phase = ("Inner", phase[1] - 1)
+                    elif K <= grown:
+                        phase = "Raised"
+                    else:
+                        grown += 1; phase = "Outer"
+            ref = (sent, grown, phase, n)
+            if real != ref:
+                bad.append({"workers": n, "real": real, "model_walk": ref, "alive_answers": alive_stream[:a2], "full_answers": put_stream[:p2]})
+            cases.append((n, merged, sent, grown, phase))
+    finally:
+        pe.sleep = saved_sleep
+    rows = ";\n  ".join("(%d, [%s])" % (n, "; ".join(f"mkans {al} {'PFull' if f else 'POk'}" for al, f in m)) for n, m, *_ in cases[:120])
+    txt = ("From Coq Require Import List Arith Bool.\nFrom LokyV Require Import Model.SentinelLoop.\nImport ListNotations.\n"
+           "Definition code (c : nat * list answer) : list nat := let s := run (fst c) 47 (snd c) sl0 in\n"
+           "  [sent s; grown s; match ph s with Done => 1 | Raised => 2 | _ => 0 end].\n"
+           f"Eval vm_compute in map code [\n  {rows}].\n")
+    ok, out = vlib.coq_eval(f"c05_loop_{os.getpid()}", txt)
+    codes = [int(x) for x in (out.split("=", 1)[1].split(":")[0] if ok and "=" in out else "").replace("[", " ").replace("]", " ").replace(";", " ").split() if x.isdigit()]
+    want = [x for _, _, s_, g, ph in cases[:120] for x in (s_, g, 1 if ph == "Done" else 2)]
+    model_bad = [i // 3 for i, (a, b) in enumerate(zip(codes, want)) if a != b] if len(codes) == len(want) else None
+    return {"ok": ok and model_bad is not None, "cases": len(cases), "against_the_real_loop": bad[:5], "n_against_the_real_loop": len(bad),
+            "coq_vs_walk_mismatches": model_bad, "ended_by_giving_up": sum(1 for c in cases if c[4] == "Raised"),
+            "error": None if ok else out[-300:]}
+
+
 def run(ctx):
-    return S.sim_check(ctx, FAMILIES, FAMILIES, PER_FAMILY, S.SIM_ASSUME, proof=PROOF)
+    import vlib
+    sd = sentinel_loop_differential(ctx, 300 if ctx.tier == "quick" else 3000)
+    if sd["n_against_the_real_loop"]:
+        rp = vlib.write_replay(ctx, "sentinels", {"kind": "the real shutdown_workers() loop and Model/SentinelLoop.v differ on the same queue / worker behaviour", "detail": sd})
+        ctx.violations.append((f"sentinel loop: real and model differ on {sd['n_against_the_real_loop']} of {sd['cases']} scripted environments: "
+                               + str(sd["against_the_real_loop"][0])[:160], rp, False))
+    elif not sd["ok"] or sd["coq_vs_walk_mismatches"]:
+        rp = vlib.write_replay(ctx, "sentinels", {"kind": "the Coq evaluation of Model/SentinelLoop.v did not run or differs from its reference walk", "detail": sd})
+        ctx.violations.append(("sentinel loop: model evaluation " + ("differs" if sd["coq_vs_walk_mismatches"] else "did not run: " + str(sd["error"])[:100]), rp, True))
+    return S.sim_check(ctx, FAMILIES, FAMILIES, PER_FAMILY, S.SIM_ASSUME, proof=PROOF, extra_cov={"sentinel_loop_differential": sd})
 
 
 def replay(ctx, path):
